@@ -993,7 +993,7 @@ Section Cards.
     (forall p m k cd c n, In (p, m) pd -> In (k, cd) m -> In (c, n) cd ->
        n = n_inst (fun i => ck_ok p c (cntf i inv p k))) /\
     (forall p m k cd j n, In (p, m) pd -> In (k, cd) m -> In (CKn j, n) cd -> p <> x_tau cfg ->
-       exists n', In (CKplus, n') cd).
+       exists m' cd' n', In (p, m') pd /\ In (k, cd') m' /\ In (CKplus, n') cd').
 
   Variable thr : F fa.
   Variable counts : ccounts.
@@ -1044,8 +1044,8 @@ Section Cards.
     assert (Hpb : s_prop b = p) by (rewrite Eb; reflexivity).
     destruct c as [j|]; [|rewrite Eb in Hnp; discriminate].
     assert (Hp' : p <> x_tau cfg) by congruence.
-    destruct (W2 p m k cd j n H1 H2 H3 Hp') as [n' Hn'].
-    pose proof (W1 p m k cd CKplus n' H1 H2 Hn') as En'.
+    destruct (W2 p m k cd j n H1 H2 H3 Hp') as (m' & cd' & n' & H1' & H2' & Hn').
+    pose proof (W1 p m' k cd' CKplus n' H1' H2' Hn') as En'.
     set (b' := mk_base (s_inv b) p k CKplus n').
     assert (Hle : (n <= n')%N).
     { rewrite H5, En'. unfold n_inst.
@@ -1063,7 +1063,7 @@ Section Cards.
     - apply class_dir_In. split; [|cbn; exact Hinv].
       apply class_base_In. cbn. split.
       + apply class_base_In in Hb. apply Hb.
-      + apply base_statements_In. exists p, m, k, cd, CKplus, n'. repeat split; assumption.
+      + apply base_statements_In. exists p, m', k, cd', CKplus, n'. repeat split; assumption.
     - apply same_tokens_eq. rewrite Eb. cbn. split; reflexivity.
     - reflexivity.
   Qed.
